@@ -9,7 +9,7 @@ from facts import AnchorMissing
 
 VERIF = os.path.dirname(os.path.dirname(os.path.dirname(os.path.abspath(__file__))))
 EVIDENCE_DIR = os.path.join(VERIF, "evidence")
-KNOWN = os.path.join(VERIF, "known_findings.jsonl")
+KNOWN = os.path.join(VERIF, "KNOWN_FINDINGS.txt")
 
 
 def load_known():
@@ -17,8 +17,18 @@ def load_known():
     if os.path.exists(KNOWN):
         for line in open(KNOWN):
             line = line.strip()
-            if line and not line.startswith("#"):
-                out.append(json.loads(line))
+            if not line or line.startswith("#"):
+                continue
+            if line.startswith("open:"):
+                body = line[len("open:"):].strip()
+                head, _, what = body.partition("::")
+                f = dict(x.split("=", 1) for x in head.split() if "=" in x and not x.startswith("key="))
+                k = head.split("key=", 1)[1].strip() if "key=" in head else ""
+                out.append({"status": "open", "property": f.get("property"), "key": k, "what": what.strip()})
+            elif line.startswith("fixed:"):
+                body = line[len("fixed:"):].strip()
+                f = dict(x.split("=", 1) for x in body.split()[:1] if "=" in x)
+                out.append({"status": "fixed", "property": f.get("property"), "what": body})
     return out
 
 
